@@ -283,6 +283,44 @@ Definition caps_pb (caps : nat * nat * nat * nat) (d : cdump) : bool :=
   && (length (d_speers d) <=? mih)%nat && forallb (fun e => (length (snd e) <=? mp)%nat) (d_speers d)
   && (length (d_imm d) <=? mi)%nat && (length (d_mut d) <=? mm)%nat.
 
+(* C15: the token carried by a reply was issued to the requester's IP *)
+Definition reply_token (y : creply) : option bytes :=
+  match y with
+  | YGetPeers _ tok _ _ | YGetSigned _ tok _ _ | YGetImm _ tok _ _ | YGetMut _ tok _ _ _ _ _ | YNoValues _ tok _ | YNoMore _ tok _ _ => Some tok
+  | _ => None
+  end.
+Definition was_issued (issued : list (N * bytes)) (ip : N) (token : bytes) : bool :=
+  existsb (fun e => (fst e =? ip) && bytes_eqb (snd e) token) issued.
+(* an acknowledged write whose token was never issued to that IP by this node (within the history):
+   None = not the case; Some true = the token nevertheless validates under the node's secrets - it was
+   derived, not issued (known class F26); Some false = it does not even validate *)
+Definition unissued_ack (issued : list (N * bytes)) (after : cdump) (s : sstep) : option bool :=
+  match q_req s, q_reply s with
+  | CPut token _, YPing _ => if was_issued issued (q_ip s) token then None else Some (dump_token_ok after (q_ip s) token)
+  | _, _ => None
+  end.
+
+Fixpoint run03_steps_i (p : pool) (u : univ) (rt srt : rtable) (caps : nat * nat * nat * nat)
+         (sv : server) (tape : N) (before : cdump) (last_rot : Z) (issued : list (N * bytes)) (steps : list sstep) : list N :=
+  match steps with
+  | [] => []
+  | s :: r =>
+      let '(rep, sv', tape') :=
+        server_step (fun _ _ _ => q_vok s) sv rt srt (q_allow s) (q_now s) (q_sys s) tape (q_ip s) (q_port s)
+                    (pget p (q_requester s)) (to_req p (q_req s)) in
+      match q_dump s with
+      | Some after =>
+          let corr := reply_eqb p u rep (q_reply s) && dump_eqb p sv' after in
+          let '(rok, last_rot') := rot_pb last_rot before after s in
+          let pb := step_pb p before after s && rok && caps_pb caps after in
+          let issued' := match reply_token (q_reply s) with Some tok => (q_ip s, tok) :: issued | None => issued end in
+          (if corr then [] else [1]) ++ (if pb then [] else [2])
+          ++ (match unissued_ack issued after s with None => [] | Some true => [126] | Some false => [2] end)
+          ++ run03_steps_i p u rt srt caps sv' tape' after last_rot' issued' r
+      | None => [1]
+      end
+  end.
+
 Fixpoint run03_steps (p : pool) (u : univ) (rt srt : rtable) (caps : nat * nat * nat * nat)
          (sv : server) (tape : N) (before : cdump) (last_rot : Z) (steps : list sstep) : list N :=
   match steps with
@@ -309,7 +347,7 @@ Definition check03 (f : c03full) : list N :=
   let '(mih, mp, mi, mm) := k_caps c in
   let '(sv, tape) := server_new (k_tape c) (k_now0 c) mih mp mi mm in
   (if dump_eqb (k_pool c) sv (f_dump0 f) then [] else [1]) ++
-  run03_steps (k_pool c) u rt srt (k_caps c) sv tape (f_dump0 f) (k_now0 c) (k_steps c).
+  run03_steps_i (k_pool c) u rt srt (k_caps c) sv tape (f_dump0 f) (k_now0 c) [] (k_steps c).
 
 Fixpoint run03 (k : N) (cs : list c03full) : list (N * N) :=
   match cs with
